@@ -124,4 +124,11 @@ PROPS = {
         'rule': "a live runner (keeper, a replicated process with 1-3 replicas, a restarting job, a dependent, a disabled process) behind httptest + api.InitRoutes and a client.PcClient; sequences of 5-30 steps over every route: reads (states, state, info, logs, project state, ports) compared three ways (REST body vs direct call vs client decode, canonical JSON with age/mem/cpu/uptime masked), state-changing requests (stop/start/restart/scale/stop-many/update-process, alternately through REST and the client) with outcome class and post-state checks, invalid requests (unknown and hostile names, non-numeric / negative / overflowing numbers, malformed and wrongly typed bodies, wrong methods and routes), interleaved with process exits and log lines. Every answer must be < 500, invalid ones 4xx, and GET /live must answer 200 after every step. Non-trivial = a read of a process after a state change plus at least one invalid request; distinct = distinct case JSON",
         'assumptions': LIFE_ASSUME[:1] + ["names passed to the client are restricted to [A-Za-z0-9_.-] (it builds URLs without escaping); other names go to the server with proper escaping", "SetProcessPassword, swagger and the client's unimplemented GetProcessLog are outside the compared surface; the websocket stream is covered by C18", "a request that does not return within 6 s is reported as a violation (the server 'stopped serving' that request)"],
     },
+    'C06': {
+        'needs_binary': True,
+        'tests': [tst('osproc', 'TestC06', 5, 60, qshards=32, tshards=32, timeout_q=400, timeout_t=3000)],
+        'rule': "real bash process trees (parent with 0-3 children and 0-2 grandchildren, every member trapping and recording signals, dying or ignoring them) managed by the unhooked production code path; shutdown.signal from the trappable set and out-of-range values, parent_only, timeout_seconds, shutdown.command (succeeding, failing, outliving its timeout); the stop arrives 0-120 ms after the whole tree reported ready, through StopProcess, ShutDownProject, or SIGTERM / SIGINT / SIGHUP sent to the production binary. Oracle: recorded signal per member, /proc aliveness of every member after the request completed, a still-alive observation shortly before timeout_seconds for ignoring parents (sound lower bound for SIGKILL), content written by the shutdown command (name, environment, working directory), bystander process untouched by StopProcess and gone after a project shutdown. Non-trivial = a tree with descendants or any non-default shutdown parameter; distinct = distinct case JSON",
+        'floors': {'parent_only': 0.05, 'signal-out-of-range': 0.03},
+        'assumptions': ["real time: a case that cannot bring its tree up within 10 s is inconclusive", "members that ignore the signal are only generated below an ignoring parent with a timeout (otherwise nothing in the statement ends them)", "with parent_only the harness itself ends the descendants once the parent is gone (they hold the output pipes open)"],
+    },
 }
